@@ -89,6 +89,18 @@ def cases(ctx, zone: str):
                 if ctx.mine():
                     yield {"tz": zone, "version": version,
                            "steps": histories.type_table_sweep(list(range(start, start + 8)), list(range(0, 57)))}
+    # the gateway never tells its version: EVERY decoded message (other than log / gateway-ready) is followed by a version
+    # query, also the 1 001st (flood limits); lengths from round numbers and the code's own novel numeric constants
+    if zone == ZONES[0] or zone == "UTC":
+        from .. import codedict
+
+        for length in codedict.thresholds([300, 1100], low=50, cap=ctx.pick(2600, 12000)):
+            if not ctx.mine():
+                continue
+            steps = prefix(None, False, True, False)
+            for i in range(length + 2):
+                steps.append(["rx", ("1;0;1;0;0;%d\n" % (i % 50)) if i % 4 else "1;255;3;0;0;77\n"])
+            yield {"tz": zone, "version": None, "steps": steps}
     # id requests on registries whose highest id is near the top of the range (an id is still free / none is)
     for version, highest, request in itertools.product([None, *VERSIONS], (1, 100, 252, 253, 254, 255),
                                                        ("255;255;3;0;3;", "255;7;3;0;3;", "9;255;3;1;3;x")):
